@@ -14,6 +14,7 @@ import json, os, shutil, subprocess, sys, tempfile, concurrent.futures, threadin
 VERIF = os.path.dirname(os.path.dirname(os.path.abspath(__file__)))
 REPO = "/repo"
 ENV = dict(os.environ, GOFLAGS="-mod=mod -trimpath", GOPROXY="off", GOSUMDB="off", GOTOOLCHAIN="local", GOWORK="off")
+TENV = dict(ENV, GOFLAGS="-mod=mod")   # the test suite finds its test data through runtime.Caller: no -trimpath when tests are run
 FILES = ["vm/vm.go", "vm/vmStmt.go", "vm/vmExpr.go", "vm/vmExprFunction.go", "vm/vmLetExpr.go", "vm/vmOperator.go", "vm/vmToX.go",
          "vm/vmConvertToX.go", "vm/vmConvertToXGo112.go", "env/env.go", "env/envValues.go", "env/envTypes.go", "core/core.go",
          "core/toX.go", "parser/lexer.go", "ast/astutil/walk.go", "anko.go"]
@@ -22,7 +23,7 @@ OUT = os.path.join(VERIF, "selftest", "sweep_results.jsonl")
 def ensure_gomutate():
     """bin/ is not committed: build the mutant lister on first use"""
     g = os.path.join(VERIF, "bin/gomutate")
-    if not os.path.exists(g) or os.path.getmtime(g) < max(os.path.getmtime(os.path.join(VERIF, "selftest/gomutate", f)) for f in ("main.go", "benign.go")):
+    if not os.path.exists(g) or os.path.getmtime(g) < max(os.path.getmtime(os.path.join(VERIF, "selftest/gomutate", f)) for f in ("main.go", "benign.go", "refactor.go")):
         subprocess.run(["go", "build", "-o", g, "."], cwd=os.path.join(VERIF, "selftest/gomutate"), env=ENV, check=True)
     return g
 
@@ -61,7 +62,7 @@ def evaluate(m):
             m["status"] = "nocompile"; return m
         v = subprocess.run(["go", "vet", "./" + os.path.dirname(m["file"]) + "/"], cwd=repo, env=ENV, capture_output=True, text=True)
         try:
-            t = subprocess.run(["unshare", "-rn", "sh", "-c", "ip link set lo up; go test -vet=off -count=1 ./..."], cwd=repo, env=ENV,
+            t = subprocess.run(["unshare", "-rn", "sh", "-c", "ip link set lo up; go test -vet=off -count=1 ./..."], cwd=repo, env=TENV,
                                capture_output=True, text=True, timeout=180)
             passed = t.returncode == 0
         except subprocess.TimeoutExpired:
@@ -134,7 +135,7 @@ def evaluate_benign(m):
             if not fired:
                 m["reports"] = (c.stdout + c.stderr)[-600:].splitlines()
             try:
-                t = subprocess.run(["unshare", "-rn", "sh", "-c", "ip link set lo up; go test -vet=off -count=1 ./..."], cwd=repo, env=ENV,
+                t = subprocess.run(["unshare", "-rn", "sh", "-c", "ip link set lo up; go test -vet=off -count=1 ./..."], cwd=repo, env=TENV,
                                    capture_output=True, text=True, timeout=180)
                 m["tests_pass"] = t.returncode == 0
             except subprocess.TimeoutExpired:
@@ -143,13 +144,13 @@ def evaluate_benign(m):
     finally:
         open(path, "wb").write(src)
 
-def run_benign(limit, workers, seed, files=None, tag="", structural=False):
+def run_benign(limit, workers, seed, files=None, tag="", structural=False, refactor=False):
     global CHECKER
     out_path = os.path.join(VERIF, "selftest", "benign_results%s.jsonl" % tag)
     CHECKER = os.path.join(tempfile.mkdtemp(prefix="ankosweepbin."), "ankocheck")
     shutil.copy(os.path.join(VERIF, "bin/ankocheck"), CHECKER)
     dirs.append(os.path.dirname(CHECKER))
-    p = subprocess.run([ensure_gomutate(), "-benign"] + (files or FILES), cwd=REPO, capture_output=True, text=True)
+    p = subprocess.run([ensure_gomutate(), "-refactor" if refactor else "-benign"] + (files or FILES), cwd=REPO, env=ENV, capture_output=True, text=True)
     muts = [json.loads(l) for l in p.stdout.splitlines()]
     if structural:   # only the rewrites that change the control-flow graph (the others leave the SSA form almost untouched)
         plain = ("wrap statement", "swap comparison", "rename local", "++ as", "-- as")
@@ -260,7 +261,7 @@ if __name__ == "__main__":
             else: a = a[1:]
         run(limit, workers, skip)
     elif len(sys.argv) > 1 and sys.argv[1] == "benign":
-        limit, workers, seed, files, tag, structural = 0, 10, 1, None, "", False
+        limit, workers, seed, files, tag, structural, refac = 0, 10, 1, None, "", False, False
         a = sys.argv[2:]
         while a:
             if a[0] == "--limit": limit = int(a[1]); a = a[2:]
@@ -269,8 +270,9 @@ if __name__ == "__main__":
             elif a[0] == "--files": files = a[1].split(","); a = a[2:]
             elif a[0] == "--tag": tag = "_" + a[1]; a = a[2:]
             elif a[0] == "--structural": structural = True; a = a[1:]
+            elif a[0] == "--refactor": refac = True; a = a[1:]   # type-aware refactorings (gomutate -refactor): helper extraction, hoisted calls, ...
             else: a = a[1:]
-        run_benign(limit, workers, seed, files, tag, structural)
+        run_benign(limit, workers, seed, files, tag, structural, refac)
     elif len(sys.argv) > 1 and sys.argv[1] == "benign-report":
         report_benign("_" + sys.argv[2] if len(sys.argv) > 2 else "")
     elif len(sys.argv) > 1 and sys.argv[1] == "recheck":
